@@ -190,7 +190,8 @@ PROPS = {
     },
     "C06": {
         "modules": ["CambrianModel.Props.C06"],
-        "theorems": ["Cambrian.Props.C06_first", "Cambrian.Props.C06_after_abort_keeps_error", "Cambrian.Props.C06_child_not_ok"],
+        "theorems": ["Cambrian.Props.C06_first", "Cambrian.Props.C06_after_abort_keeps_error", "Cambrian.Props.C06_child_not_ok",
+                     "Cambrian.Props.C06_returns_once_ended", "Cambrian.Props.C06_failure_iff", "Cambrian.Props.C06_failure_kind"],
         "correspondences": ["ctl", "proc", "run"],
         "trusted": CTL_TRUST,
         "assumptions": ["float laws used: none"],
